@@ -272,7 +272,7 @@ func (db *DB) stillBlocked(w *waitErr) bool {
 		var key int64
 		fmt.Sscanf(w.what, "advisory lock %d", &key)
 		l := db.advisory[key]
-		return l != nil && l.sess == on
+		return (l != nil && l.sess == on) || db.advShared[key][on] != nil
 	}
 	return on.txn != nil && on.txn.state == txActive && on.txn.id == w.txnID()
 }
